@@ -209,8 +209,14 @@ func c12NewSC(sc *cache.SearchCache, pool []c12SCKey, r *rand.Rand) *c12SC {
 // variant returns a spelling of the query that is the same key: ASCII case changes.
 func (s *c12SC) variant(q string) string {
 	switch s.r.Intn(4) {
-	case 0:
-		q = strings.ToUpper(q)
+	case 0: // every ASCII letter upper-cased (non-ASCII letters are left alone: whether their case variants share an entry is not asserted)
+		b := []byte(q)
+		for i := range b {
+			if b[i] >= 'a' && b[i] <= 'z' {
+				b[i] -= 32
+			}
+		}
+		q = string(b)
 	case 1:
 		b := []byte(q)
 		for i := range b {
